@@ -276,4 +276,278 @@ example : ∃ t, computeTopology 4 [⟨0, 1, 2⟩, ⟨2, 1, 3⟩] = .ok t ∧ t.
   refine ⟨_, rfl, ?_⟩
   decide
 
+/-! ### the twin of a half-edge is the oppositely directed half-edge (fu5) -/
+
+/-- every entry `((a, b), h)` of `half_edge_map` is the half-edge `h = 3 f + k` of a triangle `f` of the index buffer, going
+from its `k`-th corner `a` to its next corner `b` -/
+private def MapGeom (idx : List Tri) (m : List Entry) : Prop :=
+  ∀ x ∈ m, ∃ f k tri, idx[f]? = some tri ∧ k < 3 ∧ x.2 = 3 * f + k ∧ x.1 = (Tri.get tri k, Tri.get tri ((k + 1) % 3))
+
+private theorem addHalfEdge_map {st st' : TopoState} {fid base k v vnext : Nat}
+    (h : addHalfEdge st fid base k v vnext = .ok st') :
+    st'.map = ((v, vnext), base + k) :: st.map ∧ st'.hes.length = st.hes.length + 1 := by
+  unfold addHalfEdge at h
+  simp only at h
+  split at h
+  · split at h <;> cases h
+  · split at h
+    · cases h; simp
+    · cases h
+
+private theorem topoFaces_geom (idx pre ts : List Tri) (st st' : TopoState) (hidx : idx = pre ++ ts)
+    (hlen : st.hes.length = 3 * pre.length) (hi : MapGeom idx st.map)
+    (h : topoFaces ts pre.length st = .ok st') : MapGeom idx st'.map := by
+  induction ts generalizing pre st with
+  | nil => rw [topoFaces] at h; cases h; exact hi
+  | cons t ts ih =>
+    rw [topoFaces_cons] at h
+    split at h
+    · cases h
+    · have htri : idx[pre.length]? = some t := by rw [hidx]; simp
+      cases h1 : addHalfEdge st pre.length st.hes.length 0 t.a t.b with
+      | panic => rw [h1] at h; cases h
+      | err e => rw [h1] at h; cases h
+      | ok st1 =>
+        rw [h1] at h
+        simp only at h
+        obtain ⟨m1, l1⟩ := addHalfEdge_map h1
+        cases h2 : addHalfEdge st1 pre.length st.hes.length 1 t.b t.c with
+        | panic => rw [h2] at h; cases h
+        | err e => rw [h2] at h; cases h
+        | ok st2 =>
+          rw [h2] at h
+          simp only at h
+          obtain ⟨m2, l2⟩ := addHalfEdge_map h2
+          cases h3 : addHalfEdge st2 pre.length st.hes.length 2 t.c t.a with
+          | panic => rw [h3] at h; cases h
+          | err e => rw [h3] at h; cases h
+          | ok st3 =>
+            rw [h3] at h
+            simp only at h
+            obtain ⟨m3, l3⟩ := addHalfEdge_map h3
+            have hpre : (pre ++ [t]).length = pre.length + 1 := by simp
+            rw [← hpre] at h
+            refine ih (pre ++ [t]) { st3 with faces := st3.faces ++ [st.hes.length] } (by rw [hidx]; simp)
+              (by simp only; rw [l3, l2, l1, hlen, hpre]; omega) ?_ h
+            simp only
+            rw [m3, m2, m1]
+            intro x hx
+            simp only [List.mem_cons] at hx
+            rcases hx with rfl | rfl | rfl | hx
+            · exact ⟨pre.length, 2, t, htri, by omega, by simp only; omega, by simp [Tri.get]⟩
+            · exact ⟨pre.length, 1, t, htri, by omega, by simp only; omega, by simp [Tri.get]⟩
+            · exact ⟨pre.length, 0, t, htri, by omega, by simp only; omega, by simp [Tri.get]⟩
+            · exact hi x hx
+
+/-- **the twin of a half-edge is the oppositely directed half-edge**: if half-edge `i` (from vertex `a` to the vertex `b`
+of `next(i)`) has a twin `j`, then `j` starts at `b` and its `next` starts at `a` -/
+theorem topology_twin_opposite (nv : Nat) (idx : List Tri) (t : Topology) (h : computeTopology nv idx = .ok t)
+    (hsmall : 3 * idx.length < umax) (i : Nat) (he : HalfEdge) (hget : t.halfEdges[i]? = some he)
+    (htw : he.twin ≠ umax) :
+    ∃ hn tw twn, t.halfEdges[he.next]? = some hn ∧ t.halfEdges[he.twin]? = some tw ∧ t.halfEdges[tw.next]? = some twn ∧
+      tw.vertex = hn.vertex ∧ twn.vertex = he.vertex := by
+  have hlen := topology_length nv idx t h
+  have hE := fun f k tri ht hk => topology_halfEdge nv idx t h f k tri ht hk
+  unfold computeTopology at h
+  split at h
+  · cases h
+  · cases h
+  · rename_i st hst
+    split at h
+    · cases h
+    · rename_i hes hh
+      cases h
+      simp only at hget hlen hE ⊢
+      have hkv : MapKV st := topoFaces_kv idx 0 _ st
+        ⟨fun x hx => (by cases hx), fun x hx => (by cases hx), fun x hx => (by cases hx), fun h hh => (by cases hh)⟩ hst
+      have hgeo : MapGeom idx st.map := topoFaces_geom idx [] idx _ st rfl rfl (fun x hx => by cases hx) hst
+      have hpres := congrArg List.length (topoTwins_preserves _ _ _ _ hh)
+      simp only [List.length_map] at hpres
+      have hn : st.hes.length < umax := by omega
+      have hinit : TwinInv st.map st.hes.length st.hes := by
+        refine ⟨rfl, ?_, ?_⟩
+        · intro i he hg ht
+          exact absurd (hkv.notwin he (List.mem_of_getElem? hg)) ht
+        · intro i he hg ht
+          exact absurd (hkv.notwin he (List.mem_of_getElem? hg)) ht
+      have hfin := topoTwins_inv st.map st.map.reverse st.hes.length st.hes hes hn
+        (fun x hx => List.mem_reverse.mp hx) hkv.bound hkv.vals hinit hh
+      obtain ⟨x, hx, y, hy, ex, ey, eyk⟩ := hfin.char i he hget htw
+      obtain ⟨f, k, tri, ht, hk, e2, e1⟩ := hgeo x hx
+      obtain ⟨f', k', tri', ht', hk', e2', e1'⟩ := hgeo y hy
+      -- half-edge i = 3f+k and its next
+      obtain ⟨h0, g0, n0, v0, _⟩ := hE f k tri ht hk
+      obtain ⟨h1, g1, n1, v1, _⟩ := hE f ((k + 1) % 3) tri ht (Nat.mod_lt _ (by omega))
+      obtain ⟨h0', g0', n0', v0', _⟩ := hE f' k' tri' ht' hk'
+      obtain ⟨h1', g1', n1', v1', _⟩ := hE f' ((k' + 1) % 3) tri' ht' (Nat.mod_lt _ (by omega))
+      rw [← e2, ex, hget] at g0
+      cases g0
+      rw [← e2', ey] at g0'
+      rw [e1, e1'] at eyk
+      simp only [Prod.mk.injEq] at eyk
+      refine ⟨h1, h0', h1', by rw [n0]; exact g1, g0', by rw [n0']; exact g1', ?_, ?_⟩
+      · rw [v0', v1, eyk.1]
+      · rw [v1', v0, eyk.2]
+
+/-- non-vacuity: two triangles sharing the edge `1-2`: half-edge 1 goes `1 → 2`, its twin 3 goes `2 → 1` -/
+example : ∃ t, computeTopology 4 [⟨0, 1, 2⟩, ⟨2, 1, 3⟩] = .ok t ∧
+    t.halfEdges.map (fun h => (h.vertex, h.next, h.twin)) =
+      [(0, 1, umax), (1, 2, 3), (2, 0, umax), (2, 4, 1), (1, 5, umax), (3, 3, umax)] := by
+  refine ⟨_, rfl, ?_⟩
+  decide
+
+/-! ### `vertices[v].half_edge` is the last half-edge leaving `v` (fu5) -/
+
+/-- `tv[v]` is `u32::MAX` when no half-edge leaves `v`, otherwise the largest id of a half-edge leaving `v`
+(`vl` = the `vertex` fields of the half-edges) -/
+private def LastInv (tv vl : List Nat) : Prop :=
+  ∀ (v h : Nat), tv[v]? = some h → (h = umax ∧ v ∉ vl) ∨ (vl[h]? = some v ∧ ∀ i : Nat, vl[i]? = some v → i ≤ h)
+
+private theorem lastInv_push {tv vl : List Nat} (v0 : Nat) (hi : LastInv tv vl) :
+    LastInv (tv.set v0 vl.length) (vl ++ [v0]) := by
+  intro v h hget
+  rw [List.getElem?_set] at hget
+  by_cases hv : v0 = v
+  · subst hv
+    rw [if_pos rfl] at hget
+    split at hget
+    · cases hget
+      right
+      refine ⟨by simp, ?_⟩
+      intro i hi'
+      have := (List.getElem?_eq_some_iff.mp hi').1
+      simp at this; omega
+    · cases hget
+  · rw [if_neg hv] at hget
+    rcases hi v h hget with ⟨h1, h2⟩ | ⟨h1, h2⟩
+    · left
+      refine ⟨h1, ?_⟩
+      simp only [List.mem_append, List.mem_singleton, not_or]
+      exact ⟨h2, fun e => hv e.symm⟩
+    · right
+      have hlt : h < vl.length := (List.getElem?_eq_some_iff.mp h1).1
+      refine ⟨by rw [List.getElem?_append_left hlt]; exact h1, ?_⟩
+      intro i hi'
+      by_cases hil : i < vl.length
+      · rw [List.getElem?_append_left hil] at hi'
+        exact h2 i hi'
+      · have hlen := (List.getElem?_eq_some_iff.mp hi').1
+        simp at hlen
+        have : i = vl.length := by omega
+        subst this
+        simp at hi'
+        exact absurd hi' hv
+
+private theorem addHalfEdge_tv {st st' : TopoState} {fid base k v vnext : Nat}
+    (h : addHalfEdge st fid base k v vnext = .ok st') :
+    st'.hes.map (·.vertex) = st.hes.map (·.vertex) ++ [v] ∧ st'.tv = st.tv.set v (base + k) := by
+  unfold addHalfEdge at h
+  simp only at h
+  split at h
+  · split at h <;> cases h
+  · split at h
+    · cases h; simp
+    · cases h
+
+private theorem topoFaces_last (ts : List Tri) (fid : Nat) (st st' : TopoState)
+    (hi : LastInv st.tv (st.hes.map (·.vertex))) (h : topoFaces ts fid st = .ok st') :
+    LastInv st'.tv (st'.hes.map (·.vertex)) := by
+  induction ts generalizing fid st with
+  | nil => rw [topoFaces] at h; cases h; exact hi
+  | cons t ts ih =>
+    rw [topoFaces_cons] at h
+    split at h
+    · cases h
+    · cases h1 : addHalfEdge st fid st.hes.length 0 t.a t.b with
+      | panic => rw [h1] at h; cases h
+      | err e => rw [h1] at h; cases h
+      | ok st1 =>
+        rw [h1] at h
+        simp only at h
+        obtain ⟨v1, t1⟩ := addHalfEdge_tv h1
+        obtain ⟨_, l1⟩ := addHalfEdge_map h1
+        cases h2 : addHalfEdge st1 fid st.hes.length 1 t.b t.c with
+        | panic => rw [h2] at h; cases h
+        | err e => rw [h2] at h; cases h
+        | ok st2 =>
+          rw [h2] at h
+          simp only at h
+          obtain ⟨v2, t2⟩ := addHalfEdge_tv h2
+          obtain ⟨_, l2⟩ := addHalfEdge_map h2
+          cases h3 : addHalfEdge st2 fid st.hes.length 2 t.c t.a with
+          | panic => rw [h3] at h; cases h
+          | err e => rw [h3] at h; cases h
+          | ok st3 =>
+            rw [h3] at h
+            simp only at h
+            obtain ⟨v3, t3⟩ := addHalfEdge_tv h3
+            have i1 : LastInv st1.tv (st1.hes.map (·.vertex)) := by
+              rw [v1, t1]
+              have := lastInv_push t.a hi
+              simpa using this
+            have i2 : LastInv st2.tv (st2.hes.map (·.vertex)) := by
+              rw [v2, t2]
+              have := lastInv_push t.b i1
+              have e : (st1.hes.map (·.vertex)).length = st.hes.length + 1 := by simp [l1]
+              rw [e] at this
+              exact this
+            have i3 : LastInv st3.tv (st3.hes.map (·.vertex)) := by
+              rw [v3, t3]
+              have := lastInv_push t.c i2
+              have e : (st2.hes.map (·.vertex)).length = st.hes.length + 2 := by simp [l2, l1]
+              rw [e] at this
+              exact this
+            exact ih (fid + 1) { st3 with faces := st3.faces ++ [st.hes.length] } i3 h
+
+/-- **`vertices[v].half_edge`**: `u32::MAX` when no half-edge leaves vertex `v`; otherwise a half-edge leaving `v`, and the
+one with the largest id among them (the code overwrites the entry at every half-edge it creates) -/
+theorem topology_vertex_last (nv : Nat) (idx : List Tri) (t : Topology) (h : computeTopology nv idx = .ok t)
+    (v hh : Nat) (hv : t.vertices[v]? = some hh) :
+    (hh = umax ∧ ∀ he ∈ t.halfEdges, he.vertex ≠ v) ∨
+    (∃ he, t.halfEdges[hh]? = some he ∧ he.vertex = v ∧
+      ∀ (i : Nat) (he' : HalfEdge), t.halfEdges[i]? = some he' → he'.vertex = v → i ≤ hh) := by
+  unfold computeTopology at h
+  split at h
+  · cases h
+  · cases h
+  · rename_i st hst
+    split at h
+    · cases h
+    · rename_i hes hh'
+      cases h
+      simp only at hv ⊢
+      have hinit : LastInv (List.replicate nv umax) (([] : List HalfEdge).map (·.vertex)) := by
+        intro v h hg
+        left
+        have := List.getElem?_eq_some_iff.mp hg
+        obtain ⟨_, e⟩ := this
+        simp at e
+        exact ⟨e.symm, by simp⟩
+      have hl := topoFaces_last idx 0 _ st hinit hst
+      have hp : hes.map (·.vertex) = st.hes.map (·.vertex) := by
+        have := congrArg (List.map (fun x : Nat × Nat × Nat => x.2.1)) (topoTwins_preserves _ _ _ _ hh')
+        rw [List.map_map, List.map_map] at this
+        exact this
+      rw [← hp] at hl
+      rcases hl v hh hv with ⟨h1, h2⟩ | ⟨h1, h2⟩
+      · left
+        refine ⟨h1, ?_⟩
+        intro he hm e
+        exact h2 (by rw [← e]; exact List.mem_map_of_mem hm)
+      · right
+        rw [List.getElem?_map] at h1
+        cases hg : hes[hh]? with
+        | none => rw [hg] at h1; cases h1
+        | some he =>
+          rw [hg] at h1
+          simp only [Option.map_some, Option.some.injEq] at h1
+          refine ⟨he, rfl, h1, ?_⟩
+          intro i he' hi' e
+          exact h2 i (by rw [List.getElem?_map, hi']; simp [e])
+
+/-- non-vacuity: vertex 1 is left by half-edges 1 and 4, vertex 2 by 2 and 3; vertex 4 by none -/
+example : ∃ t, computeTopology 5 [⟨0, 1, 2⟩, ⟨2, 1, 3⟩] = .ok t ∧ t.vertices = [0, 4, 3, 5, umax] := by
+  refine ⟨_, rfl, ?_⟩
+  decide
+
 end C11
